@@ -279,16 +279,25 @@ func genSet(r *Rng, o GenOpts) (*ISet, []string) {
 
 // ivsToSet builds a set from sorted, disjoint (possibly adjacent) intervals.
 func ivsToSet(ivs []IV) *ISet {
+	sorted := true
+	for i := 1; i < len(ivs); i++ {
+		if ivs[i-1].Lo > ivs[i].Lo {
+			sorted = false
+			break
+		}
+	}
+	if !sorted {
+		ivs = append([]IV(nil), ivs...)
+		sort.Slice(ivs, func(a, b int) bool { return ivs[a].Lo < ivs[b].Lo })
+	}
 	s := &ISet{}
 	for _, v := range ivs {
 		if n := len(s.iv); n > 0 {
 			last := &s.iv[n-1]
-			if last.Hi >= v.Lo { // overlapping or unsorted input: general path
-				s.AddRange(v.Lo, v.Hi)
-				continue
-			}
-			if last.Hi+1 == v.Lo {
-				last.Hi = v.Hi
+			if last.Hi >= v.Lo || last.Hi+1 == v.Lo { // overlapping or adjacent
+				if v.Hi > last.Hi {
+					last.Hi = v.Hi
+				}
 				continue
 			}
 		}
